@@ -132,6 +132,8 @@ fn kinds(cfg: &CfgD, tier: Tier) -> Vec<Kind> {
     let huge_dist = valid(vec![(s("H"), m(huge_obs(), vec![])), (s("M"), m(vec![Obs::U(7)], vec![]))]);
     let huge_split = valid(vec![(s("H"), m(huge_obs(), vec![(s("k"), s("v"))]))]);
     let err_val = valid(vec![(s("M"), ValD::Error(s("value error")))]);
+    // a timestamp before the unix epoch (emitted as 0, whatever was formatted before)
+    let pre_epoch = build_entry(cfg, Frame { ts: TsD::PreEpoch, ..f }, vec![(s("M"), m(vec![Obs::U(7)], vec![]))]);
     let dist = valid(vec![(s("M"), m(vec![Obs::U(7), Obs::F(2.5), Obs::R(9.0, 3)], vec![])), (s("S"), ValD::Str(s("q\"")))]);
     let k = |name, entry, fail_after| Kind { name, entry, fail_after, compare_bytes: true, mode: Mode::Configured, panics: false };
     let kd = |name, entry, fail_after| Kind { name, entry, fail_after, compare_bytes: false, mode: Mode::Configured, panics: false };
@@ -174,6 +176,7 @@ fn kinds(cfg: &CfgD, tier: Tier) -> Vec<Kind> {
         k("large-1.3MB", large.clone(), None),
         k("huge-distribution-1.2MB", huge_dist, None),
         k("value-error", err_val, None),
+        k("timestamp-before-the-epoch", pre_epoch, None),
         k("io-failure-at-0", scalar.clone(), Some(0)),
         k("io-failure-mid-record", dist, Some(60)),
     ];
